@@ -141,13 +141,19 @@ class _NodeTraversalInfo(NamedTuple):
 def _match_node_element(
     n_info: _NodeTraversalInfo | NodeTraversalInfo, element: ASTXpathElement
 ) -> bool:
+    field, findex = n_info.field, n_info.findex
+
+    if isinstance(n_info.parent, _DUMMY_XPATH_ROOT):
+        # The search root is only wrapped for traversal, it has no parent field or index
+        field, findex = None, None
+
     if (
         isinstance(n_info.node, element.ast_class)
         and (
             element.parent_field is None
-            or (n_info.field is not None and element.parent_field == n_info.field.name)
+            or (field is not None and element.parent_field == field.name)
         )
-        and (element.parent_index is None or element.parent_index == n_info.findex)
+        and (element.parent_index is None or element.parent_index == findex)
     ):
         return True
 
